@@ -309,7 +309,23 @@ EmitMove:
                 if (available_regs & ~in_out_regs) {
                   available_regs &= ~in_out_regs;
                 }
-                out_id = Support::ctz(available_regs);
+
+                uint32_t scratch_id = Support::ctz(available_regs);
+                if (alt_var.out.is_initialized()) {
+                  out_id = scratch_id;
+                  goto EmitMove;
+                }
+
+                // The destination is occupied by a variable that has no destination (SA register), so moving this
+                // variable to a scratch register would not make the destination available - move the other one
+                // to the scratch register instead and then move this variable to its destination.
+                ASMJIT_PROPAGATE(
+                  emit_arg_move(
+                    Reg(RegUtils::signature_of(alt_var.cur.reg_type()), scratch_id), alt_var.cur.type_id(),
+                    Reg(RegUtils::signature_of(alt_var.cur.reg_type()), out_id), alt_var.cur.type_id()));
+
+                wd.reassign(alt_id, scratch_id, out_id);
+                alt_var.cur.set_reg_id(scratch_id);
                 goto EmitMove;
               }
               else {
